@@ -7,7 +7,7 @@ Lemma trie_ind' (P : trie -> Prop) :
 Proof.
   intros H. fix IH 1. intros [kids]. apply H.
   induction kids as [|[k s] r IHr]; intros k0 sub Hin; [destruct Hin|].
-  destruct Hin as [E|Hin]; [inversion E; subst; apply IH|eapply IHr; eauto].
+  destruct Hin as [E|Hin]; [replace sub with s by congruence; apply IH|eapply IHr; eauto].
 Qed.
 
 (* prefix order on strings *)
@@ -142,3 +142,26 @@ Proof.
       * intros k' Hin. change (In k' ((k :: trie_keys sub) ++ trie_keys (T r))) in Hin.
         apply in_app_or in Hin. destruct Hin as [Hin|Hin]; [now apply Hnot|now apply IH].
 Qed.
+
+(* insertion orders: all permutations of a list (for the sampled check below) *)
+Fixpoint inserts (x : str) (l : list str) : list (list str) :=
+  match l with
+  | [] => [[x]]
+  | y :: r => (x :: l) :: map (cons y) (inserts x r)
+  end.
+Fixpoint perms (l : list str) : list (list str) :=
+  match l with
+  | [] => [[]]
+  | x :: r => flat_map (inserts x) (perms r)
+  end.
+
+Definition build (vs : list str) : trie := fold_left insert_trie vs (T []).
+
+(* the longest element of vs that is a prefix of v, by brute force *)
+Definition longest_of (vs : list str) (v : str) : option str :=
+  fold_left (fun acc k => if starts_with v k
+                          then match acc with
+                               | Some o => if Nat.ltb (length o) (length k) then Some k else acc
+                               | None => Some k
+                               end
+                          else acc) vs None.
